@@ -141,6 +141,11 @@ struct World {
   std::vector<CompG> cg;
   std::vector<long> ghost;  // var -> grant id or -1
   long next_gid = 0;
+  // OptimisticLock: version ghosts of X guards (expected new version, lock index)
+  std::vector<uint32_t> xnver;
+  std::vector<long> xlk;
+  uint32_t pend_nver = 0;
+  long pend_lk = -1;
 
   explicit World(const Scenario &sc)
   {
@@ -182,6 +187,30 @@ struct World {
     og = std::vector<OptG>(no);
     cg = std::vector<CompG>(nc);
     ghost.assign(kinds.size(), -1);
+    xnver.assign(kinds.size(), 0);
+    xlk.assign(kinds.size(), -1);
+  }
+
+  // token announcing the end of the exclusive grant owned by X variable v (OptimisticLock only)
+  void
+  xend(long v)
+  {
+    if constexpr (kIsOpt<Lock>) {
+      if (kinds.at(v) == Kind::X && ghost[v] >= 0) tok("XE" + std::to_string(xlk[v]) + ":" + hex(xnver[v]));
+    }
+  }
+
+  template <class G>
+  void
+  xbegin(const G &g, long lk)
+  {
+    if constexpr (kIsOpt<Lock> && std::is_same_v<G, XG>) {
+      if (g) {
+        pend_nver = g.GetVersion() + 1U;
+        pend_lk = lk;
+        tok("XB" + std::to_string(lk) + ":" + hex(g.GetVersion()));
+      }
+    }
   }
 
   template <class F>
@@ -216,8 +245,11 @@ struct World {
       using D = std::decay_t<decltype(d)>;
       if constexpr (std::is_same_v<D, std::decay_t<G>> && !std::is_same_v<D, NoGuard>) {
         if (ghost[dst] >= 0) tok("G-" + std::to_string(ghost[dst]));
+        xend(dst);
         d = std::move(tmp);
         ghost[dst] = gid;
+        xnver[dst] = pend_nver;
+        xlk[dst] = pend_lk;
       } else {
         tok("BADKIND");
       }
@@ -255,12 +287,14 @@ struct World {
           gid = next_gid++;
           tok("G+" + std::to_string(gid) + ":" + std::to_string(o.b) + ":X");
         }
+        xbegin(tmp, o.b);
         assign(o.a, std::move(tmp), gid, k, gid >= 0 ? "1" : "0");
       }
     } else if (o.name == "dtor") {
       visit(o.a, [&](auto &g) {
         using G = std::decay_t<decltype(g)>;
         if (ghost[o.a] >= 0) tok("G-" + std::to_string(ghost[o.a]));
+        xend(o.a);
         g.~G();
         new (&g) G{};
         ghost[o.a] = -1;
@@ -274,6 +308,7 @@ struct World {
           using Sv = std::decay_t<decltype(sv)>;
           if constexpr (std::is_same_v<D, Sv> && !std::is_same_v<D, NoGuard>) {
             if (ghost[o.a] >= 0) tok("G-" + std::to_string(ghost[o.a]));
+            xend(o.a);
             if (ctor) {
               d.~D();
               new (&d) D(std::move(sv));
@@ -282,6 +317,8 @@ struct World {
             }
             ghost[o.a] = ghost[o.b];
             ghost[o.b] = -1;
+            xnver[o.a] = xnver[o.b];
+            xlk[o.a] = xlk[o.b];
           } else {
             tok("BADKIND");
           }
@@ -291,12 +328,14 @@ struct World {
     } else if (o.name == "upg") {
       auto &src = six.at(idx[o.b]);
       const long old = ghost[o.b];
+      const void *src_dest = src.dest_;
       auto tmp = src.UpgradeToX();
       ghost[o.b] = -1;
       long gid = -1;
       if (tmp && old >= 0) {
         gid = old;
         tok("GU" + std::to_string(old) + ":X");
+        xbegin(tmp, lock_index_of(src_dest));
       } else if (tmp) {
         gid = next_gid++;
         tok("G+" + std::to_string(gid) + ":?:X");
@@ -307,6 +346,7 @@ struct World {
     } else if (o.name == "dng") {
       auto &src = x.at(idx[o.b]);
       const long old = ghost[o.b];
+      xend(o.b);
       auto tmp = src.DowngradeToSIX();
       ghost[o.b] = -1;
       long gid = -1;
@@ -396,6 +436,7 @@ struct World {
             gid = next_gid++;
             tok("G+" + std::to_string(gid) + ":" + std::to_string(lk) + ":X");
           }
+          xbegin(tmp, lk);
           assign(o.a, std::move(tmp), gid, k, std::string(gid >= 0 ? "1" : "0") + ":" + hex(src.GetVersion()));
         }
       } else if (o.name == "prep") {
@@ -413,6 +454,7 @@ struct World {
         tok(rk + (ok ? "1" : "0") + ":" + hex(g.GetVersion()));
       } else if (o.name == "setver") {
         x.at(idx[o.a]).SetVersion(static_cast<uint32_t>(o.val));
+        xnver[o.a] = static_cast<uint32_t>(o.val);
         tok(rk + "0");
       } else if (o.name == "xver") {
         tok(rk + hex(x.at(idx[o.a]).GetVersion()));
@@ -428,6 +470,14 @@ struct World {
         tok("BADOP");
       }
     }
+  }
+
+  long
+  lock_index_of(const void *p) const
+  {
+    for (size_t i = 0; i < locks.size(); ++i)
+      if (static_cast<const void *>(locks[i].get()) == p) return static_cast<long>(i);
+    return -1;
   }
 
   long
